@@ -36,7 +36,7 @@ ASSUMPTIONS = ["exit-code class asserted only where docs/source/cli.rst is unamb
                "otherwise merely non-zero"]
 REQUIRED_PROBES = ["case.valid_run", "case.flag_no_exec", "case.invalid_config", "case.missing_key_never_produced",
                    "case.missing_key_produced_later", "case.runspace_supplied", "case.runspace_malformed", "case.runspace_over_cap",
-                   "case.missing_file", "case.usage_error", "case.failing_run"]
+                   "case.missing_file", "case.usage_error", "case.failing_run", "dry_run_requested_in_yaml"]
 CONFIG = {
     "quick": {"runs": 2500, "budget_s": 240, "timeout_s": 120},
     "thorough": {"runs": 100000, "budget_s": 1600, "timeout_s": 120},
@@ -99,6 +99,8 @@ def generate(rng: random.Random, tier: str, seed: int) -> dict:
             c["flags"] = rng.sample(FLAGS, rng.randint(1, 2))
             c["with_set"] = rng.random() < 0.4
             c["via_rs_file"] = rng.random() < 0.3
+            c["dry_run_in_yaml"] = rng.random() < 0.3
+            c["with_cap_flag"] = rng.random() < 0.6
         elif kind == "invalid_config":
             c["how"] = rng.choice(["unknown_processor", "unknown_param", "type_gate", "type_gate_subclass", "probe_no_key",
                                    "deleted_then_required", "external_deleted_then_required", "external_renamed_then_required"])
@@ -228,6 +230,13 @@ def run_case(sc: dict, c: dict, w, stats: dict, idx: int) -> list[dict]:
             label = "flag_no_exec+set"
         if c.get("via_rs_file"):
             run_space = {"blocks": [{"mode": "by_position", "context": {"rs_other": [1.0, 2.0]}}]}
+        if c.get("dry_run_in_yaml"):
+            # the dry run is requested by the configuration itself (`run_space.dry_run: true`), alone or together with a
+            # run-space cap on the command line; nothing on the command line takes the request back
+            run_space = dict(run_space or {"blocks": [{"mode": "by_position", "context": {"rs_other": [1.0, 2.0]}}]}, dry_run=True)
+            c = dict(c, flags=(["--run-space-max-runs", "50"] if c.get("with_cap_flag") else []))
+            label = "flag_no_exec:dry_run_in_yaml" + ("+cap_flag" if c.get("with_cap_flag") else "")
+            stats["probe.dry_run_requested_in_yaml"] = stats.get("probe.dry_run_requested_in_yaml", 0) + 1
     elif kind == "invalid_config":
         m = _mutate_invalid(nodes, c["how"], c["at"], base["truth"])
         if m is None:
